@@ -249,6 +249,8 @@ def gen_plan_c07(rng, tier, idx, opts):
         else:
             inc["fault"] = gen_fault(rng, kinds, nl, swarm=swarm)
         plan["incarnations"].append(inc)
+        if k > 0 and not big and rng.random() < 0.12:
+            inc["set_rep_max"] = max(1, cfg["rep_max"] + rng.choice([-3, -2, -1, 1, 2]))     # e.g. a quick preview run from the partial files
         if k > 0:
             prevf = plan["incarnations"][k - 1].get("fault") or {}
             if prevf.get("action") in ("kill_soft", "oserror") and rng.random() < 0.35:
